@@ -211,6 +211,30 @@ def main(outpath):
     L.append("Definition cmp_route_hi (pos EpsilonRecursive level_size : Z) : Z := %s." % translate(strip(his[1])))
     L.append("Definition cmp_search_lo (pos Epsilon : Z) : Z := %s." % translate(los[2]))
     L.append("Definition cmp_search_hi (pos Epsilon n : Z) : Z := %s." % translate(his[2]))
+    # the capped position `pos = std::min<T>(prediction, next intercept)` of every search/routing site: both arguments are
+    # converted to T before the comparison, so T is part of the semantics (a narrower T wraps large predictions)
+    def min_sites(path, cls_pat, what, expect):
+        txt = open(os.path.join(REPO, path)).read()
+        if cls_pat:
+            m = re.search(cls_pat, txt, re.S)
+            if not m: raise TErr("%s: class not found" % what)
+            txt = m.group(1)
+        found = re.findall(r"(?:auto )?pos = std::min<([^>]*)>\(", txt)
+        if len(found) != expect: raise TErr("%s: expected %d `pos = std::min<T>(` sites, got %d" % (what, expect, len(found)))
+        out = []
+        for t in found:
+            t = t.strip()
+            if t == "size_t": out.append(64)
+            elif t in INT_TYPES and not INT_TYPES[t][1]: out.append(INT_TYPES[t][0])
+            else: raise TErr("%s: std::min<%s>: type not understood (unsigned fixed-width integer types and size_t only)" % (what, t))
+        return out
+    sites = [("pgm", I, None, 2), ("cmp", V, r"\nclass CompressedPGMIndex \{(.*?)\n\};\n", 3), ("bkt", V, r"\nclass BucketingPGMIndex \{(.*?)\n\};\n", 1),
+             ("efi", V, r"\nclass EliasFanoPGMIndex \{(.*?)\n\};\n", 1), ("capi", "c-interface/cpgm.cpp", None, 1)]
+    L.append("(* pos = std::min<T>(prediction, next intercept) at every routing/search site: T = the listed unsigned widths *)")
+    for nm, path, pat, expect in sites:
+        ws = min_sites(path, pat, nm, expect)
+        for j, w in enumerate(ws):
+            L.append("Definition %s_pos_cap_%d (e i : Z) : Z := Z.min (wrapU %d e) (wrapU %d i)." % (nm, j, w, w))
     # saturation limits of the three evaluation sites (argument of the Floating(...) conversion) and of Segment::operator()
     e = grab(V, r"auto p = root_pos >= Floating\(([^?]*)\) \? std::numeric_limits<int64_t>::max\(\)", "compressed root saturation limit")
     L.append("Definition cmp_root_far_arg : Z := %s." % translate(e))
